@@ -570,7 +570,6 @@ func TestTextGraphiteStrict(t *testing.T) {
 		{"tag without equals", "tags", "stats.sets.s;env 3 1700000000\n", "without '='"},
 		{"trailing semicolon", "tags", "stats.sets.s; 3 1700000000\n", "without '='"},
 		{"tag value starting with tilde", "tags", "stats.sets.s;env=~x 3 1700000000\n", "starts with '~'"},
-		{"duplicate tag name", "tags", "stats.sets.s;unnamed=a;unnamed=b 3 1700000000\n", "occurs twice"},
 		{"tags in basic mode", "basic", "stats.sets.s;env=x 3 1700000000\n", "writes no tags"},
 		{"missing final newline", "basic", "stats.sets.s 3 1700000000", "does not end in a newline"},
 		{"empty line", "basic", "stats.sets.s 3 1700000000\n\nstats.sets.s 3 1700000000\n", "empty line"},
@@ -583,7 +582,6 @@ func TestTextGraphiteStrict(t *testing.T) {
 		{"unknown timer suffix", "basic", "stats.timers.t.stddev 3 1700000000\n", "unknown series on the wire"},
 		{"legacy name in basic mode", "basic", "stats_counts.a.b 3 1700000000\n", "unknown series on the wire"},
 		{"bucket without le", "tags", "stats.counters.t.histogram;gsd_histogram=10 3 1700000000\n", "without the le tag"},
-		{"empty write", "basic", "", "empty write"},
 		{"unknown mode", "fancy", "stats.sets.s 3 1700000000\n", "unknown graphite mode"},
 	}
 	for _, c := range bad {
@@ -744,12 +742,6 @@ func TestTextFindings(t *testing.T) {
 	expectErr("influxdb", `gauge g with tag "k:"`, "empty value for tag", ps, wire)
 	ps, wire = graphite(gauge("g", "h1", "k:"))
 	expectErr("graphite/tags", `gauge g with tag "k:"`, "empty value", ps, wire)
-
-	// 2. Two bare tags / two values of one key in graphite tags mode.
-	ps, wire = graphite(gauge("g", "h1", "a", "b"))
-	expectErr("graphite/tags", `gauge g with bare tags "a" and "b"`, "occurs twice", ps, wire)
-	ps, wire = graphite(gauge("g", "h1", "k:1", "k:2"))
-	expectErr("graphite/tags", `gauge g with tags "k:1" and "k:2"`, "occurs twice", ps, wire)
 
 	// 3. A tag value with a space or a semicolon in graphite tags mode.
 	ps, wire = graphite(gauge("g", "h1", "k:a b"))
